@@ -316,8 +316,8 @@ class Geo:
         self.cfn, self.fields, self.start, self.member_field, self.role_field = reader_tables(ctx, repo, cx.rfn, cx.rb)
         ctx.site(GEO, self.cfn)
         self.special = special_branches(cx.rfn, cx.rb, self.role_field)
-        self.cfold = cc.Folder(repo.cls(GEO, "Chunk.Container"))
-        self.tfold = cc.Folder(repo.cls(ATTR, "_BaseAttribute.Type"))
+        self.cfold = cc.folder_for(repo, GEO, "Chunk.Container")
+        self.tfold = cc.folder_for(repo, ATTR, "_BaseAttribute.Type")
         if repo.has_func(GEO, "Chunk.Container.from_string"):
             ctx.site(GEO, repo.func(GEO, "Chunk.Container.from_string"))
         self.header_len = max(self.start) if len(self.start) == 1 else None
@@ -1539,7 +1539,7 @@ def reader_misc(g):
     rsite = cx.rs()
     # chunk type names
     if repo.has_func(GEO, "Chunk.Type.from_string"):
-        tf = cc.Folder(repo.cls(GEO, "Chunk.Type"))
+        tf = cc.folder_for(repo, GEO, "Chunk.Type")
         fsite = ctx.site(GEO, repo.func(GEO, "Chunk.Type.from_string"))
         for tag in TAGS:
             try:
